@@ -476,3 +476,28 @@ Qed.
 
 Lemma conforms_b_spec cmds obs : conforms_b cmds obs = true <-> conforms cmds obs.
 Proof. unfold conforms_b, conforms. apply replies_eqb_eq. Qed.
+
+(** * Millisecond deadlines (known finding C29-F2): the store keeps whole seconds *)
+From NoKV Require Import Spec.RedisMsSpec.
+
+(* at 1000000.000 s: SET u 41 PXAT <300 ms later>; 1 ms later: GET u *)
+Definition w_pxat_ms : list (N * list bytes) :=
+  [(1000000000, [n_SET; k1; of_string "41"%string; n_PXAT; of_string "1000000300"%string]);
+   (1000000001, [n_GET; k1])].
+
+Lemma ms_granularity_refuted :
+  snd (run current [] (to_seconds w_pxat_ms)) = [RSimple n_OK; RNil]
+  /\ snd (spec_run_ms 0 empty_map w_pxat_ms) = [RSimple n_OK; RBulk (of_string "41"%string)]
+  /\ within_granularity w_pxat_ms (map encode_reply [RSimple n_OK; RNil]) = true.
+Proof. vm_compute. repeat split; reflexivity. Qed.
+
+(* in the late direction: SET u 41 PX 1 at .050 s is still readable 10 ms later *)
+Definition w_px_late : list (N * list bytes) :=
+  [(1000000050, [n_SET; k1; of_string "41"%string; n_PX; of_string "1"%string]);
+   (1000000060, [n_GET; k1])].
+
+Lemma ms_granularity_late_refuted :
+  snd (run current [] (to_seconds w_px_late)) = [RSimple n_OK; RBulk (of_string "41"%string)]
+  /\ snd (spec_run_ms 0 empty_map w_px_late) = [RSimple n_OK; RNil]
+  /\ within_granularity w_px_late (map encode_reply [RSimple n_OK; RBulk (of_string "41"%string)]) = true.
+Proof. vm_compute. repeat split; reflexivity. Qed.
